@@ -1,6 +1,6 @@
 SPECIFICATION Spec
 CONSTANTS
-  Ids = {0, 1, 5}
+  Ids = {0, 1, 2, 5}
   MaxLen = 3
   NRand = 8
 INVARIANTS
